@@ -423,6 +423,7 @@ def _analyze(tier, seed):
                      dict(meta=m, model=got[:40], impl=exp[:40], seed=seed))
     res.traces = len(calls)
     res.samples = [dict(meta=meta[i], impl=expect[i][:16]) for i in (0, len(calls) // 3, len(calls) // 2, len(calls) - 1)]
+    res.xsamples = {k: v[:2] for k, v in core.XSAMPLES.items()}
     return res
 
 
